@@ -255,8 +255,15 @@ fn real_find(case: &Case) -> (String, Option<PathBuf>) {
     });
     match result {
         Err(_) => ("panic".to_owned(), None),
-        Ok(Ok(p)) => (format!("ok {}", wire(&p)), Some(p)),
-        Ok(Err(msg)) => {
+        Ok(r) => classify_find(r),
+    }
+}
+
+/// canonical text of one locator answer
+fn classify_find(r: Result<PathBuf, String>) -> (String, Option<PathBuf>) {
+    match r {
+        Ok(p) => (format!("ok {}", wire(&p)), Some(p)),
+        Err(msg) => {
             if let Some(rest) = msg.strip_prefix("unable to find `") {
                 let end = rest.find("` (tried").or_else(|| rest.find('`')).unwrap_or(rest.len());
                 (format!("err notfound {}", wire(Path::new(&rest[..end]))), None)
@@ -1074,6 +1081,301 @@ fn run_bundle_cases(cases: &[&Case], threads: usize) -> Vec<String> {
 }
 
 // ------------------------------------------------------------------------------------------
+// histories: ONE locator instance (as in a bundling run) answers several calls
+
+/// a sequence of calls `(requiring file, require)` on one file system and one mode
+#[derive(Clone, Debug)]
+struct History {
+    mode: Mode,
+    proj: String,
+    files: Vec<String>,
+    calls: Vec<(String, String)>,
+    /// documented answer of each call (None: no judgement)
+    expect: Vec<Option<Expect>>,
+    kind: &'static str,
+}
+
+impl History {
+    fn to_json(&self) -> Value {
+        let mut v = mode_to_json(&self.mode);
+        v["op"] = json!("hist");
+        v["proj"] = json!(self.proj);
+        v["files"] = json!(self.files);
+        v["calls"] = json!(self.calls.iter().map(|(src, req)| json!([src, req])).collect::<Vec<_>>());
+        v
+    }
+
+    fn from_json(v: &Value) -> Option<History> {
+        let calls: Vec<(String, String)> = v["calls"]
+            .as_array()?
+            .iter()
+            .filter_map(|c| Some((c[0].as_str()?.to_owned(), c[1].as_str()?.to_owned())))
+            .collect();
+        Some(History {
+            mode: mode_from_json(v)?,
+            proj: v["proj"].as_str()?.to_owned(),
+            files: v["files"].as_array()?.iter().filter_map(|f| f.as_str().map(str::to_owned)).collect(),
+            expect: vec![None; calls.len()],
+            calls,
+            kind: "replay",
+        })
+    }
+
+    fn call_case(&self, i: usize) -> Case {
+        Case {
+            mode: self.mode.clone(),
+            proj: self.proj.clone(),
+            files: self.files.clone(),
+            source: self.calls[i].0.clone(),
+            req: self.calls[i].1.clone(),
+            expect: self.expect[i].clone(),
+            present: 0,
+            kind: self.kind,
+            ext: "",
+            deco: 0,
+            mask: 0,
+            region: "",
+        }
+    }
+
+    fn model_request(&self) -> String {
+        let calls: Vec<String> = self.calls.iter().map(|(src, req)| format!("{}={}", hx(req), hx(src))).collect();
+        format!("c15.hist {} {} {} {}", mode_wire(&self.mode), hx(&self.proj), list_wire(&self.files), calls.join(","))
+    }
+}
+
+/// all calls answered by one real locator, in order
+fn real_history(h: &History) -> Vec<String> {
+    let n = h.calls.len();
+    let h = h.clone();
+    std::panic::catch_unwind(move || {
+        let resources = Resources::from_memory();
+        for f in &h.files {
+            resources.write(f, &format!("return {:?}", f)).unwrap();
+        }
+        let calls: Vec<(PathBuf, PathBuf)> = h.calls.iter().map(|(src, req)| (PathBuf::from(req), PathBuf::from(src))).collect();
+        let answers = match &h.mode {
+            Mode::Path { folder, sources } => vh::path_locator_find_sequence(&build_path_mode(folder, sources), Path::new(&h.proj), &resources, &calls),
+            Mode::Luau { aliases } => vh::luau_path_locator_find_sequence(&build_luau_mode(aliases), Path::new(&h.proj), &resources, &calls),
+        };
+        answers.into_iter().map(|r| classify_find(r).0).collect::<Vec<_>>()
+    })
+    .unwrap_or_else(|_| vec!["panic".to_owned(); n])
+}
+
+/// the files around `dir/<stem>` selected by `mask` (bits as in `universe`)
+fn layout_files(dir: &str, stem: &str, mask: u32) -> Vec<String> {
+    let mut target = walk(&cwd(), dir);
+    target.push(stem.to_owned());
+    universe(&target, "", "init").iter().enumerate().filter(|(i, _)| mask & (1 << i) != 0).map(|(_, l)| loc_string(l)).collect()
+}
+
+fn expect_for(base_dir: &Loc, tail: &[&str], files: &[String]) -> Expect {
+    let mut target = base_dir.clone();
+    for t in tail {
+        if *t == ".." {
+            target.pop();
+        } else {
+            target.push((*t).to_owned());
+        }
+    }
+    let present: BTreeSet<Loc> = files.iter().map(|f| walk(&cwd(), f)).collect();
+    match documented_candidates(&target, "", "init").into_iter().find(|c| present.contains(c)) {
+        Some(loc) => Expect::File(loc),
+        None => Expect::NotFound,
+    }
+}
+
+fn permutations<T: Clone>(items: &[T]) -> Vec<Vec<T>> {
+    if items.len() <= 1 {
+        return vec![items.to_vec()];
+    }
+    let mut out = Vec::new();
+    for i in 0..items.len() {
+        let mut rest = items.to_vec();
+        let x = rest.remove(i);
+        for mut p in permutations(&rest) {
+            p.insert(0, x.clone());
+            out.push(p);
+        }
+    }
+    out
+}
+
+/// Histories of 2-4 calls that share a non-relative (or relative) literal across requiring
+/// files in different directories, in every order, plus seeded mixed ones.
+fn histories(thorough: bool, rng: &mut Rng) -> Vec<History> {
+    let mut out = Vec::new();
+    // requiring files: (path, directory, is a module-folder file)
+    let requirers: [(&str, &str, bool); 7] = [
+        ("src/a/init.luau", "src/a", true),
+        ("src/b/init.luau", "src/b", true),
+        ("src/b/other.luau", "src/b", false),
+        ("src/a/deep/init.lua", "src/a/deep", true),
+        ("lib/mod.luau", "lib", false),
+        ("main.luau", ".", false),
+        ("/abs/x/init.luau", "/abs/x", true),
+    ];
+    let masks: &[u32] = if thorough { &[2, 4, 16, 32, 6, 0, 3] } else { &[2, 4, 16, 0] };
+    let dirs = ["src/a", "src/b", "src/a/deep", "lib", ".", "/abs/x", "src", "pk", "/abs"];
+    // every directory gets its own layout around `util` (rotating through the masks) so that the
+    // answers differ in kind as well as in place
+    for (rot, _) in masks.iter().enumerate() {
+        let mut files: Vec<String> = Vec::new();
+        for (i, d) in dirs.iter().enumerate() {
+            files.extend(layout_files(d, "util", masks[(i + rot) % masks.len()]));
+        }
+        files.sort();
+        files.dedup();
+        let luau = Mode::Luau { aliases: vec![(s("@pkg"), s("./pk")), (s("@abs"), s("/abs"))] };
+        let pathm = Mode::Path { folder: s("init"), sources: vec![(s("pkg"), s("./pk")), (s("abs"), s("/abs"))] };
+        // (kind, literal, how the base directory follows from the requirer)
+        #[derive(Clone, Copy)]
+        enum Base {
+            OwnDir,
+            RelativeLuau,
+            RelativePath,
+            Fixed(&'static str),
+        }
+        let literals: [(&'static str, &Mode, &str, Base, &[&str]); 8] = [
+            ("history-luau-self", &luau, "@self/util", Base::OwnDir, &["util"]),
+            ("history-luau-self", &luau, "@self/../util", Base::OwnDir, &["..", "util"]),
+            ("history-luau-alias", &luau, "@pkg/util", Base::Fixed("pk"), &["util"]),
+            ("history-luau-alias", &luau, "@abs/util", Base::Fixed("/abs"), &["util"]),
+            ("history-luau-relative", &luau, "./util", Base::RelativeLuau, &["util"]),
+            ("history-path-source", &pathm, "pkg/util", Base::Fixed("pk"), &["util"]),
+            ("history-path-source", &pathm, "abs/util", Base::Fixed("/abs"), &["util"]),
+            ("history-path-relative", &pathm, "./util", Base::RelativePath, &["util"]),
+        ];
+        let expect_of = |req_idx: usize, literal_idx: usize| -> Expect {
+            let (_, dir, is_module) = requirers[req_idx];
+            let (_, _, _, base, tail) = literals[literal_idx];
+            let mut b = walk(&cwd(), dir);
+            match base {
+                Base::OwnDir | Base::RelativePath => {}
+                Base::RelativeLuau => {
+                    if is_module {
+                        b.pop();
+                    }
+                }
+                Base::Fixed(d) => b = walk(&cwd(), d),
+            }
+            expect_for(&b, tail, &files)
+        };
+        // same literal from 2-3 requiring files in different directories, every order, and with
+        // the first call repeated at the end
+        let groups: [&[usize]; 8] = [&[0, 1], &[0, 2], &[1, 3], &[0, 4, 5], &[0, 1, 6], &[2, 3, 4], &[5, 0], &[6, 1]];
+        for (li, (kind, mode, literal, _, _)) in literals.iter().enumerate() {
+            for group in groups {
+                for perm in permutations(group) {
+                    let mut order = perm.clone();
+                    if order.len() < 4 {
+                        order.push(perm[0]);
+                    }
+                    out.push(History {
+                        mode: (*mode).clone(),
+                        proj: s("."),
+                        files: files.clone(),
+                        calls: order.iter().map(|&r| (s(requirers[r].0), s(literal))).collect(),
+                        expect: order.iter().map(|&r| Some(expect_of(r, li))).collect(),
+                        kind,
+                    });
+                }
+            }
+        }
+        // seeded mixed histories: different literals interleaved
+        for _ in 0..(if thorough { 600 } else { 150 }) {
+            let luau_side = rng.chance(2, 3);
+            let pool: Vec<usize> = (0..literals.len()).filter(|&i| matches!(literals[i].1, Mode::Luau { .. }) == luau_side).collect();
+            let n = 2 + rng.below(3);
+            let picks: Vec<(usize, usize)> = (0..n).map(|_| (rng.below(requirers.len()), *rng.pick(&pool))).collect();
+            out.push(History {
+                mode: literals[picks[0].1].1.clone(),
+                proj: s("."),
+                files: files.clone(),
+                calls: picks.iter().map(|&(r, l)| (s(requirers[r].0), s(literals[l].2))).collect(),
+                expect: picks.iter().map(|&(r, l)| Some(expect_of(r, l))).collect(),
+                kind: if luau_side { "history-luau-mixed" } else { "history-path-mixed" },
+            });
+        }
+    }
+    out
+}
+
+/// judge one history: (functionality failures, documentation failures, model mismatches)
+fn check_history(h: &History, model_answer: &str) -> (Vec<String>, Vec<String>, Vec<String>) {
+    let seq = real_history(h);
+    let model: Vec<&str> = model_answer.split('|').collect();
+    let mut stale = Vec::new();
+    let mut docs = Vec::new();
+    let mut corr = Vec::new();
+    for i in 0..h.calls.len() {
+        let case = h.call_case(i);
+        let (fresh, _) = real_find(&case);
+        if seq[i] != fresh {
+            stale.push(format!(
+                "call {} (`{}` from `{}`): the shared locator answers `{}`, a fresh locator `{}`",
+                i + 1, case.req, case.source, seq[i], fresh
+            ));
+        }
+        // the documented answer, judged on what the shared locator said
+        let seq_path = seq[i].strip_prefix("ok ").map(|_| ());
+        if seq_path.is_some() || seq[i].starts_with("err") {
+            let real_path = if seq[i] == fresh { real_find(&case).1 } else { None };
+            if seq[i] == fresh {
+                if let Some(what) = oracle_find(&case, &seq[i], &real_path) {
+                    docs.push(format!("call {}: {}", i + 1, what));
+                }
+            }
+        }
+        if model.get(i).copied() != Some(seq[i].as_str()) {
+            corr.push(format!("call {}: real `{}` model `{}`", i + 1, seq[i], model.get(i).copied().unwrap_or("<missing>")));
+        }
+    }
+    (stale, docs, corr)
+}
+
+/// one bundling run whose entry requires several modules, each of which makes the same requires
+/// from its own directory. Returns the set of leaf files whose marker text was inlined.
+fn real_bundle_many(mode: &Mode, proj: &str, leaves: &[String], modules: &[(String, Vec<String>)], entry: &str) -> Result<BTreeSet<String>, String> {
+    let mode = mode.clone();
+    let proj = proj.to_owned();
+    let leaves = leaves.to_vec();
+    let modules = modules.to_vec();
+    let entry = entry.to_owned();
+    std::panic::catch_unwind(move || {
+        let resources = Resources::from_memory();
+        for f in &leaves {
+            resources.write(f, &format!("return {:?}", f)).unwrap();
+        }
+        let mut entry_code = String::new();
+        for (i, (path, literals)) in modules.iter().enumerate() {
+            let body: Vec<String> = literals.iter().map(|l| format!("require({:?})", l)).collect();
+            resources.write(path, &format!("return {{ {} }}", body.join(", "))).unwrap();
+            // the entry reaches the module by an explicit relative path
+            entry_code.push_str(&format!("local m{} = require({:?})\n", i, format!("./{}", path)));
+        }
+        entry_code.push_str(&format!("return {{ {} }}", (0..modules.len()).map(|i| format!("m{}", i)).collect::<Vec<_>>().join(", ")));
+        resources.write(&entry, &entry_code).unwrap();
+        let text = format!("{{ rules: [], generator: 'dense', bundle: {{ require_mode: {} }} }}", mode_json5(&mode));
+        let config: darklua_core::Configuration = json5::from_str(&text).map_err(|e| format!("configuration {}", e))?;
+        let config = config.with_location(&proj);
+        let out = "bundle-output/out.lua";
+        let options = darklua_core::Options::new(&entry).with_output(out).with_configuration(config);
+        let ok = match darklua_core::process(&resources, options) {
+            Ok(tree) => tree.result().is_ok(),
+            Err(_) => false,
+        };
+        if !ok {
+            return Err("error".to_owned());
+        }
+        let code = resources.get(out).map_err(|_| "error".to_owned())?;
+        Ok(leaves.iter().filter(|f| code.contains(&format!("'{}'", f)) || code.contains(&format!("\"{}\"", f))).cloned().collect())
+    })
+    .unwrap_or_else(|_| Err("panic".to_owned()))
+}
+
+// ------------------------------------------------------------------------------------------
 // normalize
 
 fn path_strings(max_len: usize) -> Vec<String> {
@@ -1191,7 +1493,7 @@ pub fn run(report: &mut Report, replay: Option<&str>) {
     let known = known_findings("C15");
     let threads = std::thread::available_parallelism().map(|n| n.get()).unwrap_or(4).min(16);
     report.rule = "normalize: every path string over the segments {'', '.', '..', 'a', 'b.lua', '.x'} up to a length bound, rooted or not, both keep flags, plus seeded longer ones; \
-candidates: path strings x module folder names; locators: every subset of the six files around the target x require spellings (plain, redundant '.', detour 'zz/..', '//', trailing '/', './..', with/without .lua/.luau, non-Lua extension) x requiring files (ordinary, module-folder, absolute, parent-relative) x module folder names (init, init.luau, index) x sources/aliases maps x project locations, plus seeded odd cases. \
+candidates: path strings x module folder names; locators: every subset of the six files around the target x require spellings (plain, redundant '.', detour 'zz/..', '//', trailing '/', './..', with/without .lua/.luau, non-Lua extension) x requiring files (ordinary, module-folder, absolute, parent-relative) x module folder names (init, init.luau, index) x sources/aliases maps x project locations, plus seeded odd cases; histories: 2-4 calls (requiring file, require) answered by ONE locator instance (and one bundling run with several requiring modules) sharing a literal (@self/.., @alias/.., source/.., ./..) across directories, every order, each answer compared with the fresh-locator answer, the documented answer and the model. \
 A locator case is non-trivial when at least one candidate file exists (the loop selects); a normalize case when the output differs from the input's own component list; keys are whole inputs."
         .to_owned();
 
@@ -1477,6 +1779,109 @@ A locator case is non-trivial when at least one candidate file exists (the loop 
             report.violation(Violation { kind: s("oracle"), check: format!("bundle-inlines-first-existing/{}", case.kind), what: format!("documented `{}`, bundled `{}`", want, got), input, failing_input_found: true });
         }
     }
+    // ---- F. histories: one locator answers several calls (resolution must be a function of
+    //         (file system, mode, requiring file, require): every answer = the fresh-locator answer)
+    let hs = histories(thorough, &mut rng);
+    let requests: Vec<String> = hs.iter().map(|h| h.model_request()).collect();
+    let answers = model.ask_batch(&requests);
+    for (h, answer) in hs.iter().zip(answers.iter()) {
+        let (stale, docs, corr) = check_history(h, answer);
+        report.case(Some(hash_of(&("hist", format!("{:?}", h.mode), &h.files, &h.calls))));
+        report.hist("history-kind", h.kind);
+        report.hist("history-length", &h.calls.len().to_string());
+        for what in &stale {
+            report.violation(Violation { kind: s("oracle"), check: format!("history-independence/{}", h.kind), what: what.clone(), input: h.to_json(), failing_input_found: true });
+        }
+        for what in &docs {
+            report.violation(Violation { kind: s("oracle"), check: format!("history-first-existing-candidate/{}", h.kind), what: what.clone(), input: h.to_json(), failing_input_found: true });
+        }
+        if stale.is_empty() && docs.is_empty() {
+            for what in &corr {
+                report.violation(Violation { kind: s("correspondence"), check: format!("history/{}", h.kind), what: what.clone(), input: h.to_json(), failing_input_found: false });
+            }
+        }
+    }
+    report.count("history_cases", hs.len() as u64);
+    report.exhaustive.insert(s("histories: the same literal (@self/.., @alias/.., source/.., ./..) from 2-3 requiring files in different directories, every order, first call repeated at the end"), true);
+
+    // ---- G. one bundling run, several requiring modules in different directories sharing their
+    //         non-relative literals: every documented file must be inlined, and no other
+    {
+        let luau = Mode::Luau { aliases: vec![(s("@pkg"), s("./pk"))] };
+        let pathm = Mode::Path { folder: s("init"), sources: vec![(s("pkg"), s("./pk"))] };
+        // (mode, modules (path, dir, is module-folder), literals with their base rule)
+        let luau_modules: [(&str, &str, bool); 4] = [("src/a/init.luau", "src/a", true), ("src/b/init.luau", "src/b", true), ("src/b/other.luau", "src/b", false), ("lib/mod.luau", "lib", false)];
+        let path_modules: [(&str, &str, bool); 3] = [("src/a/mod.lua", "src/a", false), ("src/b/mod.lua", "src/b", false), ("lib/mod.lua", "lib", false)];
+        let mut leaves: Vec<String> = Vec::new();
+        for (i, d) in ["src/a", "src/b", "lib", "pk", "src", "."].iter().enumerate() {
+            // `util.luau` / `util.lua` / `util/init.luau` in turn: always a Lua extension (F31 stays out)
+            leaves.extend(layout_files(d, "util", [2u32, 4, 16][i % 3]));
+            leaves.extend(layout_files(d, "helper", [4u32, 16, 2][i % 3]));
+        }
+        let groups: Vec<Vec<usize>> = vec![vec![0, 1], vec![1, 0], vec![0, 2], vec![2, 0], vec![0, 1, 3], vec![3, 1, 0], vec![1, 2, 3], vec![0, 1, 2, 3]];
+        let mut runs = 0u64;
+        for (mode, modules, literal_sets) in [
+            (&luau, &luau_modules[..], vec![vec!["@self/util"], vec!["@self/util", "@pkg/util"], vec!["@pkg/helper", "@self/helper"], vec!["./util", "@self/util"]]),
+            (&pathm, &path_modules[..], vec![vec!["pkg/util"], vec!["./util", "pkg/util"], vec!["./helper", "pkg/helper"]]),
+        ] {
+            for group in &groups {
+                if group.iter().any(|&g| g >= modules.len()) {
+                    continue;
+                }
+                for literals in &literal_sets {
+                    let mods: Vec<(String, Vec<String>)> = group.iter().map(|&g| (s(modules[g].0), literals.iter().map(|l| s(l)).collect())).collect();
+                    // documented set of inlined leaves
+                    let mut want: BTreeSet<String> = BTreeSet::new();
+                    let mut resolvable = true;
+                    for &g in group {
+                        let (_, dir, is_module) = modules[g];
+                        for l in literals {
+                            let (base, tail): (Loc, Vec<&str>) = if let Some(t) = l.strip_prefix("@self/") {
+                                (walk(&cwd(), dir), t.split('/').collect())
+                            } else if let Some(t) = l.strip_prefix("@pkg/").or_else(|| l.strip_prefix("pkg/")) {
+                                (walk(&cwd(), "pk"), t.split('/').collect())
+                            } else {
+                                let mut b = walk(&cwd(), dir);
+                                if is_module && matches!(mode, Mode::Luau { .. }) {
+                                    b.pop();
+                                }
+                                (b, l.trim_start_matches("./").split('/').collect())
+                            };
+                            match expect_for(&base, &tail, &leaves) {
+                                Expect::File(loc) => {
+                                    want.insert(loc_string(&loc));
+                                }
+                                _ => resolvable = false,
+                            }
+                        }
+                    }
+                    if !resolvable {
+                        continue;
+                    }
+                    runs += 1;
+                    let got = real_bundle_many(mode, ".", &leaves, &mods, "entry.luau");
+                    report.case(Some(hash_of(&("bundle-many", format!("{:?}", mode), &mods))));
+                    let ok = matches!(&got, Ok(set) if set == &want);
+                    report.hist("bundle-many", if ok { "inlines exactly the documented files" } else { "differs" });
+                    if !ok {
+                        let mut input = mode_to_json(mode);
+                        input["op"] = json!("bundle-many");
+                        input["proj"] = json!(".");
+                        input["files"] = json!(leaves);
+                        input["modules"] = json!(mods.iter().map(|(p, ls)| json!([p, ls])).collect::<Vec<_>>());
+                        report.violation(Violation {
+                            kind: s("oracle"),
+                            check: s("bundle-many-inlines-documented-files"),
+                            what: format!("documented {:?}, bundled {:?}", want, got),
+                            input,
+                            failing_input_found: true,
+                        });
+                    }
+                }
+            }
+        }
+        report.count("bundle_many_runs", runs);
+    }
     report.count("bundle_cases", pool.len() as u64);
     report.count("convert_cases", conv_cases.len() as u64);
     report.count("locator_labelled_cases", labelled as u64);
@@ -1581,6 +1986,21 @@ fn check_corpus_entry(report: &mut Report, model: &mut Model, v: &Value, known: 
                     report.violation(Violation { kind: s("oracle"), check: s("corpus/convert"), what, input: input.clone(), failing_input_found: true });
                 } else if before.is_some() && arg.as_ref().ok() != model_arg.as_ref() {
                     report.violation(Violation { kind: s("correspondence"), check: s("corpus/convert"), what: format!("real `{:?}` model `{}`", arg, m), input: input.clone(), failing_input_found: false });
+                }
+            }
+        }
+        Some("hist") => {
+            if let Some(h) = History::from_json(input) {
+                let m = model.ask(&h.model_request());
+                let (stale, _, corr) = check_history(&h, &m);
+                report.case(Some(("corpus-hist", input.to_string())));
+                for what in &stale {
+                    report.violation(Violation { kind: s("oracle"), check: s("corpus/history-independence"), what: what.clone(), input: input.clone(), failing_input_found: true });
+                }
+                if stale.is_empty() {
+                    for what in &corr {
+                        report.violation(Violation { kind: s("correspondence"), check: s("corpus/history"), what: what.clone(), input: input.clone(), failing_input_found: false });
+                    }
                 }
             }
         }
